@@ -59,8 +59,10 @@ def needs_quote(name):
 
 def _ref(d, allow_range=True):
     def coord():
-        col = d.choice(['A', 'B', 'Z', 'AA', 'AZ', 'XFD', 'C', 'IV', 'BC'])
-        row = d.choice([1, 2, 9, 10, 99, 100, 1048576, 7, 65536])
+        col = d.choice(['A', 'B', 'Z', 'AA', 'AZ', 'XFD', 'C', 'IV', 'BC',
+                        'ZZ', 'AAA', 'ABC', 'E', 'EE', 'XEE'])
+        row = d.choice([1, 2, 9, 10, 99, 100, 1048576, 7, 65536, 1000000,
+                        12345])
         s = ('$' if d.chance(1, 4) else '') + col + \
             ('$' if d.chance(1, 4) else '') + str(row)
         return s
@@ -86,6 +88,9 @@ def _string(d):
         return d.choice(SPECIAL_STR)
     if k == 1:
         return d.choice(['abc', 'hello world', 'x', 'Total', 'n/a'])
+    if d.chance(1, 30):
+        # long literals
+        return (d.choice(DELIMS) + 'ab"c') * d.choice([64, 100, 300, 9000])
     n = d.pick(7)
     return ''.join(d.choice(DELIMS) for _ in range(n))
 
@@ -99,7 +104,10 @@ def _leaf(d):
                                  '7'])]
     if k == 5:
         return ['num', d.choice(['5%', '12.5%', '1E3', '2.5E-2', '1e+10',
-                                 '10E+1', '100%'])]
+                                 '10E+1', '100%', '1E+100', '1E100',
+                                 '2.5E-300', '9.99999999999999E+307',
+                                 '1e-100', '123456789012345', '0.000001',
+                                 '1E+007', '12345.678901234'])]
     if k < 9:
         return ['str', _string(d)]
     if k == 9:
@@ -118,7 +126,10 @@ def _tree(d, depth, top=False):
     if k < 2:
         return _leaf(d)
     if k < 6:
-        n = d.choice([1, 2, 2, 3, 3, 4, 0, 5, 8])
+        n = d.choice([1, 2, 2, 3, 3, 4, 0, 5, 8, 9, 10, 11, 30])
+        if n > 8:
+            return ['call', d.choice(FUNCS),
+                    [_leaf(d) for _ in range(n)]]
         return ['call', d.choice(FUNCS),
                 [_tree(d, depth - 1) for _ in range(n)]]
     if k < 9:
@@ -245,6 +256,19 @@ def enumerate_cases(tier, shard=0, nshards=1):
                 t = ['op', '+', [('range' if ':' in body else 'ref'),
                                  name + '!' + body], ['num', '1']]
                 out.append((t, '=' + R.render(t)))
+    # many arguments, deep nesting
+    for n in (9, 10, 11, 26, 30, 100, 254, 255, 256):
+        t = ['call', 'F', [['num', str(i + 1)] for i in range(n)]]
+        out.append((t, '=' + R.render(t)))
+    for depth in (6, 10, 20, 40):
+        t = ['ref', 'A1']
+        for i in range(depth):
+            t = ['call', 'F%d' % (i % 3), [t, ['num', str(i)]]]
+        out.append((t, '=' + R.render(t)))
+        t = ['num', '1']
+        for i in range(depth):
+            t = ['par', ['op', '+', t, ['num', str(i)]]]
+        out.append((t, '=' + R.render(t)))
     for n in range(0, 9):
         t = ['call', 'F', [['num', str(i + 1)] for i in range(n)]]
         out.append((t, '=' + R.render(t)))
